@@ -337,6 +337,8 @@ func CheckChangesScope(opts migrate.PlanOptions, changes []schema.Change) error 
 			t = c.T
 		case *schema.DropTable:
 			t = c.T
+		case *schema.RenameTable:
+			t = c.From
 		default:
 			continue
 		}
